@@ -32,6 +32,8 @@ func (g *gen) joinStmts(list []stmtText, closed bool) string {
 				b.WriteString(";")
 				if g.ws > 0 && g.r.Chance(1, 3) {
 					b.WriteString(g.r.Pick("\n", " ", "\n  ", ";"))
+				} else if g.ws > 1 && g.r.Chance(1, 40) {
+					b.WriteString(g.r.Pick("<!-- c\n", "\n--> c\n", "\n  --> c\n", "// c\n", "/*! keep */"))
 				}
 			}
 		} else if g.ws > 0 && g.r.Chance(1, 4) {
@@ -636,7 +638,7 @@ func (g *gen) tryStmt(d int) []stmtText {
 		case g.level >= 2015 && r.Chance(1, 8):
 			m := g.fresh("c")
 			g.declare(&variable{name: m, k: kAny, mut: true, decl: "catch"})
-			b.WriteString("catch({message:" + m + "}){")
+			b.WriteString("catch({name:" + m + "}){")
 		default:
 			c := g.fresh("c")
 			b.WriteString("catch(" + c + "){")
